@@ -67,7 +67,7 @@ def rate_ok(fmt, sr, got):
     if mj in (0x10, 0x11):     # HTK, SDS: sample period
         return abs(got - sr) <= max(1, sr * sr // 10**7 + 1) if mj == 0x10 else abs(got - sr) <= max(1, sr * sr // 10**9 + 1)
     if mj == 0x08:             # VOC: divisor
-        return abs(got - sr) <= max(1, sr * sr // 10**6 + 1) if sr <= 200000 else True
+        return abs(got - sr) <= max(1, sr * sr // 10**6 + 1) if 4000 <= sr <= 200000 else True   # 1 MHz / (256 - divisor)
     if mj in (0x0F, 0x19):     # XI, WVE: fixed
         return True
     if mj == 0x16:
